@@ -280,3 +280,24 @@ Example c11_nonvacuous_latch :
      open_path (closed_image [10;12;15]%positive y) = Load /\ d_clean (closed_image [10;12;15]%positive y) = true /\
      own_checkb (own (xstep y (XClose [10;12;15]%positive))) = true).
 Proof. split; [apply c11_xadmb_sound; vm_compute; reflexivity|]. vm_compute. repeat split; reflexivity. Qed.
+
+(* ------------------------------------------------------------------------------------------------
+   Tie to the code (Gen/Fns.v is regenerated from header.rs / transactions.rs on every run by tools/gen_fns.py; see
+   design.d/GEN.md): select_primary of the reopen model is the function translated from
+   UnrepairedDatabaseHeader::select_primary_slot, and the free horizon of the ownership model is the expression
+   translated from durable_commit. *)
+From RV Require Import Gen.FnsLib Gen.Fns Gen.FnsRecoverP Gen.FnsTxnP.
+
+Theorem c11_code_select_primary_slot_is_model : forall i : Reopen.Model.image,
+  Reopen.Model.select_primary i =
+  match UnrepairedDatabaseHeader_select_primary_slot (g_tpc i) (negb (s_cksum_ok (primary i)))
+          (negb (s_cksum_ok (secondary i))) (Reopen.Model.s_txid (primary i)) (Reopen.Model.s_txid (secondary i)) with
+  | None => Err
+  | Some true => Ok (i, true)
+  | Some false => Ok (swap i, false)
+  end.
+Proof. exact reopen_select_primary_is_model. Qed.
+
+Theorem c11_code_durable_commit_free_until_is_model : forall dflt s,
+  Own.horizon dflt s = durable_commit_free_until (PSet.minN (Own.live_ids s)) dflt.
+Proof. exact own_horizon_is_model. Qed.
